@@ -136,7 +136,10 @@ void init_socket_peer(struct socket_peer *p, struct buffered_reader *reader, boo
 	br->set_error_handler = reader->set_error_handler;
 	br->writev = reader->writev;
 
-	br->read_exactly(br->this_ptr, 4, read_msg_length, p);
+	if (unlikely(br->read_exactly(br->this_ptr, 4, read_msg_length, p) < 0)) {
+		/* The socket could not be added to the event loop, nobody would ever release the peer. */
+		free_jet_peer(p);
+	}
 }
 
 struct socket_peer *alloc_jet_peer(void)
